@@ -228,6 +228,19 @@ def _hyp_settings(n, phases):
 CRASH = "worker-process-died"
 
 
+def replay_unit(args):
+    """re-run one committed replay file in a worker process (the code under test may crash the interpreter): list of
+    (bucket, value) pairs that deviate"""
+    prop, path = args
+    pin_environment()
+    import_felupe()
+    try:
+        return replay_file(_load(prop), path, with_values=True)
+    except HarnessError as e:
+        # reported as a harness error of the run (exit code 2 unless violations are found elsewhere), the run itself goes on
+        return [("__harness__", str(e)[:1500])]
+
+
 def crashed_unit(args):
     """result of a unit whose worker process died (interpreter crash inside the code under test, e.g. a segfault in a
     compiled solver fed by it): reported as a deviation of its own, the run goes on"""
@@ -499,14 +512,16 @@ def run_property(prop, tier, seed, jobs=None, only_family=None):
     replay_dir = os.path.join(VERIF_DIR, "replays", prop)
     replayed = 0
     if os.path.isdir(replay_dir) and not only_family:
-        import_felupe()
-        for fn in sorted(os.listdir(replay_dir)):
-            if not fn.endswith(".json") or fn.startswith("new-"):
-                continue
-            rp = os.path.join(replay_dir, fn)
-            devs = replay_file(mod, rp, with_values=True)
+        rps = [os.path.join(replay_dir, fn) for fn in sorted(os.listdir(replay_dir)) if fn.endswith(".json") and not fn.startswith("new-")]
+        # (in worker processes like everything else that runs the code under test: a crash of the interpreter inside a compiled
+        # solver must not take the reporting process with it)
+        all_devs = safe_map(replay_unit, [(prop, rp) for rp in rps], min(jobs, 8), ctx, lambda a_: [(os.path.basename(a_[1]) + "/" + CRASH, 1.0)], ordered=True) if rps else []
+        for rp, devs in zip(rps, all_devs):
             replayed += 1
             for b, val in devs:
+                if b == "__harness__":
+                    errors.append(f"replay {os.path.basename(rp)}: {val}")
+                    continue
                 k = match_known(known, b, val)
                 if k is not None:
                     known_hits.setdefault(k["id"], (k, []))[1].append(b)
